@@ -578,4 +578,19 @@ def rule_classes(ck):
         (o.ok() if ok else o.fail('%s does not make sure the forecast\'s expected rates exist' % name))
 
 
-RULES = [rule_status, rule_undersampling, rule_guards, rule_every_catalog, rule_first_difference, rule_formulas, rule_classes, rule_forecast_state]
+def rule_kernel_inputs(ck):
+    """the statistic kernels are called once per synthetic catalog and once for the observation with the *same* mean-rate array:
+    a kernel that writes into its arguments changes what the next call computes"""
+    from .common import parameter_writes
+    P = ck.prog
+    ck.clause('D4')
+    for q in (CL, 'csep.utils.stats.cumulative_square_diff', 'csep.utils.stats.MLL_score', 'csep.utils.stats.get_quantiles'):
+        f = P.func(q)
+        bad = parameter_writes(P, f)
+        o = ck.ob('C10-D4.inputs', f, 'arguments are read only', f.node)
+        (o.fail('`%s` writes into an argument of %s: the forecast\'s mean rates are handed in again for every synthetic catalog and for the '
+                'observation, so from the second call on the pseudo-likelihood is computed from already normalised rates (shifted by '
+                '-N_j ln N_fore, which changes the quantile)' % (u(bad[0])[:80], f.short)) if bad else o.ok())
+
+
+RULES = [rule_status, rule_undersampling, rule_guards, rule_every_catalog, rule_first_difference, rule_formulas, rule_classes, rule_forecast_state, rule_kernel_inputs]
